@@ -10,6 +10,8 @@ import (
 // zeroing and halving of values. Exhausted tapes read as zeros, which are the
 // simplest choices everywhere (empty block, first enabled goroutine, no
 // extra steps).
+//
+//go:norace
 func Minimize(t *testing.T, prop string, seed uint64, plan, sched []int, class string, params map[string]int, maxRuns int, maxWall time.Duration) (bestPlan, bestSched []int, runs int) {
 	deadline := time.Now().Add(maxWall)
 	fails := func(p, s []int) bool {
